@@ -13,16 +13,26 @@ from .model import AnalysisError, Project
 from .report import Abort, Report
 
 
+_ACTIVE: set = set()
+
+
 def lift(P: Project, R: Report, prop: str, rules: Iterable[str], as_rule: str, text: str, prefix: str, min_n: int = 1, suffix: str = "", select=None) -> int:
     mod = importlib.import_module(f"sa.checks.{prop.lower()}")
     sub = Report(prop=prop, tier=R.tier)
     undecided = None
+    # two properties may read each other's obligations (C06 ⇄ C17): the one being lifted from does not lift back
+    if R.prop in _ACTIVE or prop in _ACTIVE:
+        if prop in _ACTIVE:
+            return 0
+    _ACTIVE.add(R.prop)
     try:
         mod.check(P, sub)
     except Abort:
         pass
     except AnalysisError as e:
         undecided = str(e)
+    finally:
+        _ACTIVE.discard(R.prop)
     obs = [o for o in sub.obligations if o.rule in set(rules) and (select is None or select(o))]
     if len(obs) < min_n and all(o.ok for o in obs):
         if undecided is not None:
